@@ -224,6 +224,54 @@ func checkC06(w *Worker) {
 			}
 		}
 	}
+	// a period whose bounds are given at different positions: begin globally and end on the sub-command, the reverse, and a
+	// complete global period of which the sub-command overrides one bound only (the other one is inherited)
+	w.Explore("period-split-between-global-and-sub-command", ExploreOpts{ShardDepth: 3}, func(x *Exec) {
+		var subCmds []c06Cmd
+		for _, c := range c06Cmds {
+			if c.HasSub {
+				subCmds = append(subCmds, c)
+			}
+		}
+		cmd := subCmds[x.Choose(len(subCmds), "input:command")]
+		split := x.Choose(4, "layout:split")
+		wb := append([]string{}, c06Window...)
+		wb = append(wb, "today", "yesterday")
+		b := wb[x.Choose(len(wb), "input:begin")]
+		e := wb[x.Choose(len(wb), "input:end")]
+		tz := []int{0, -5 * 3600}[x.Choose(2, "env:tz")]
+		l := c06Log([]string{"2021/01/26", "2021/01/23", "2021/01/25", "2021/01/24", "2021/01/27", "2021/01/25", "2021/01/22"})
+		var global, sub []string
+		switch split {
+		case 0:
+			global, sub = []string{"-b", b}, []string{"-e", e}
+		case 1:
+			global, sub = []string{"-e", e}, []string{"-b", b}
+		case 2: // the global end is a decoy
+			global, sub = []string{"-b", b, "-e", "2021/01/22"}, []string{"-e", e}
+		default: // the global begin is a decoy
+			global, sub = []string{"--begin", "2021/01/28", "--end", e}, []string{"--begin", b}
+		}
+		args := append([]string{"--no-color", "--today", c06Today}, global...)
+		if cmd.Name == "csv-log" {
+			args = append(args, "csv", "log")
+			args = append(args, sub...)
+		} else {
+			args = append(args, cmd.Args[0])
+			args = append(args, sub...)
+			args = append(args, cmd.Args[1:]...)
+		}
+		c := appCase{Args: args, Files: map[string]string{"food.yaml": bookText, "log.yaml": renderLog(l)}, TZ: tz}
+		r := runApp(c)
+		sel := refFilter(l, b, e)
+		ref := reference(cmd, sel, nil)
+		x.Obs(r.Key())
+		x.Case(fmt.Sprint(cmd.Name, split, b, e, tz), len(sel) > 0 && len(sel) < len(l))
+		if r.Key() != ref.Key() {
+			x.Violate("C06|"+cmd.Name+"|split-period|wrong-selection", fmt.Sprintf("`%s` (TZ offset %ds): begin=%q end=%q\nprinted:\n%s\nwith the other days deleted and no period the same command prints:\n%s", c.shell(), tz, b, e, r.String(), ref.String()),
+				map[string]interface{}{"cmd": c.shell(), "observed": r.String(), "expected": ref.String(), "begin": b, "end": e})
+		}
+	})
 	// every period-aware command shape of the master list (global flags), on the window with a reduced set of bounds
 	shapes := shapeArgs(func(s cmdShape) bool { return s.Period })
 	// zones with daylight-saving rules: keyword bounds are calendar arithmetic on --today, and a transition between
